@@ -67,7 +67,9 @@ func (t *Table) GetImageURLs() []string {
 	}
 
 	imgURLs := []string{}
-	for _, img := range dom.QuerySelectorAll(t.cloned, "img,source") {
+	// A <source> is an image source only inside a <picture>; in a <video>
+	// or <audio> it names a media file.
+	for _, img := range dom.QuerySelectorAll(t.cloned, "img,picture source") {
 		src := dom.GetAttribute(img, "src")
 		if src != "" {
 			imgURLs = append(imgURLs, src)
